@@ -26,6 +26,39 @@ pub struct Case {
     pub layout: YLayout,
     /// 0 YaccGrammar::new_with_storaget, 1 from_str with a %grmtools header
     pub entry: u8,
+    /// length of that header (0: the fixed header of `header_for`, as in older replay files)
+    #[serde(default)]
+    pub header_len: usize,
+}
+
+impl Case {
+    /// The text after the %grmtools header (entry 1), the whole text otherwise.
+    pub fn body(&self) -> &str {
+        if self.entry == 1 {
+            &self.text[if self.header_len > 0 { self.header_len } else { header_for(self.kind).len() }..]
+        } else {
+            &self.text
+        }
+    }
+}
+
+/// The header in one of several layouts: blanks or a line break between a value (also a
+/// constructor's closing parenthesis) and the comma after it, a second entry, a trailing comma on a
+/// line of its own.
+pub fn header_variant(k: YKind, v: usize) -> String {
+    let val = match k {
+        YKind::Generic => "Original(GenericParseTree)",
+        YKind::NoAction => "YaccKind::Original(YaccOriginalActionKind::NoAction)",
+        YKind::UserAction => "Original(UserAction)",
+        YKind::Grmtools => "Grmtools",
+        YKind::Eco => "Eco",
+    };
+    match v {
+        1 => format!("%grmtools{{yacckind: {val} , recoverer: RecoveryKind::None}}\n"),
+        2 => format!("%grmtools{{yacckind: {val}\n  , recoverer: RecoveryKind::CPCTPlus\n}}\n"),
+        3 => format!("%grmtools {{\n  yacckind: {val}\n  ,\n}}\n"),
+        _ => header_for(k).to_string(),
+    }
 }
 
 pub fn yacc_kind(k: YKind) -> YaccKind {
@@ -79,9 +112,11 @@ pub fn gen_case_opts(ch: &mut Choices, tier: Tier, post: Option<fn(&mut Choices,
     }
     let (mut text, mut layout) = render_varied(ch, &ag, kind);
     let entry = if ch.chance(1, 3) { 1 } else { 0 };
+    let mut header_len = 0;
     if entry == 1 {
-        let h = header_for(kind);
+        let h = header_variant(kind, ch.weighted(&[3, 1, 1, 1]));
         let off = h.len();
+        header_len = off;
         text = format!("{h}{text}");
         let sh = |x: &mut (usize, usize)| {
             x.0 += off;
@@ -105,6 +140,7 @@ pub fn gen_case_opts(ch: &mut Choices, tier: Tier, post: Option<fn(&mut Choices,
         text,
         layout,
         entry,
+        header_len,
     }
 }
 
@@ -563,7 +599,7 @@ impl Prop for C10 {
             return o;
         }
         // ---- ASTWithValidityInfo agrees on validity
-        let astv = ASTWithValidityInfo::new(yacc_kind(case.kind), if case.entry == 1 { &text[crate::props::c10::header_for(case.kind).len()..] } else { text });
+        let astv = ASTWithValidityInfo::new(yacc_kind(case.kind), case.body());
         if !astv.is_valid() {
             fail(&mut o, "ast-validity", "ASTWithValidityInfo::new says invalid".into());
             return o;
